@@ -94,6 +94,36 @@ DetN ==
     /\ UNCHANGED <<typ, msg, rmsg>>
     /\ l' = l + 1
 
+\* C07 (Mem.tla: InputNotAliased): decode `in` into a fresh message, overwrite the caller's buffer;
+\* the value and the bytes observed before and after the overwrite must both be Dec(in)
+AliasIn ==
+    /\ IsEvent("alias_in")
+    /\ LET e == Trace[l]
+           exp == DecInto(S, typ, e.in, EmptyMsg, Opts(FALSE, {}))
+       IN Verdict(e, exp.ok => (e.ok /\ FromJ(S, typ, e.st_before) = exp.val /\ FromJ(S, typ, e.st) = exp.val
+                                /\ e.out_before = EncMsg(S, typ, exp.val) /\ e.out = e.out_before), TRUE,
+                  IF ~e.ok THEN "alias_in:error"
+                  ELSE IF FromJ(S, typ, e.st_before) # exp.val THEN "alias_in:decode" ELSE "alias_in:input-aliased")
+    /\ UNCHANGED <<typ, msg, rmsg>>
+    /\ l' = l + 1
+
+\* C07 (Mem.tla: OutputNotAliased)
+AliasOut ==
+    /\ IsEvent("alias_out")
+    /\ LET e == Trace[l]
+       IN Verdict(e, e.ok /\ e.out = e.out_before /\ (e.det => e.out = EncMsg(S, typ, msg)), TRUE,
+                  IF e.out # e.out_before \/ ~e.ok THEN "alias_out:output-aliased" ELSE "alias_out:bytes")
+    /\ UNCHANGED <<typ, msg, rmsg>>
+    /\ l' = l + 1
+
+\* C07 (Mem.tla: ReadOnly leaves every buffer unchanged)
+ReadOnlyEv ==
+    /\ IsEvent("readonly")
+    /\ LET e == Trace[l]
+       IN Verdict(e, e.ro_changed = <<>> /\ e.ro_calls > 0, TRUE, "readonly:struct-changed")
+    /\ UNCHANGED <<typ, msg, rmsg>>
+    /\ l' = l + 1
+
 Size ==
     /\ IsEvent("size")
     /\ LET e == Trace[l]
@@ -146,7 +176,7 @@ Unmarshal ==
     /\ l' = l + 1
 
 Init == l = 1 /\ typ = "" /\ msg = EmptyMsg /\ rmsg = EmptyMsg /\ TLCSet(1, 0)
-Next == Load \/ Reset \/ Marshal \/ Roundtrip \/ DetN \/ Size \/ AppendEv \/ Unmarshal
+Next == Load \/ Reset \/ Marshal \/ Roundtrip \/ DetN \/ AliasIn \/ AliasOut \/ ReadOnlyEv \/ Size \/ AppendEv \/ Unmarshal
 Spec == Init /\ [][Next]_vars
 
 AllConsumed ==
